@@ -171,16 +171,18 @@ namespace internal
 		explicit DataRawMultiHashIterator() noexcept
 			: mRaw0(nullptr),
 			mRawBegin(),
-			mRawIndex(0)
+			mRawIndex(0),
+			mRawCount(0)
 		{
 		}
 
 		explicit DataRawMultiHashIterator(RawPtr raw0, RawIterator rawBegin, size_t rawIndex,
-			VersionKeeper version) noexcept
+			size_t rawCount, VersionKeeper version) noexcept
 			: VersionKeeper(version),
 			mRaw0(raw0),
 			mRawBegin(rawBegin),
-			mRawIndex(static_cast<ptrdiff_t>(rawIndex))
+			mRawIndex(static_cast<ptrdiff_t>(rawIndex)),
+			mRawCount(rawCount)
 		{
 		}
 
@@ -196,6 +198,7 @@ namespace internal
 					static_cast<size_t>(mRawIndex) + static_cast<size_t>(diff));
 				MOMO_CHECK(newRawIndex >= 0);
 				MOMO_CHECK(mRawBegin != RawIterator() || newRawIndex <= 1);
+				MOMO_CHECK(static_cast<size_t>(newRawIndex) <= mRawCount);
 				mRawIndex = newRawIndex;
 			}
 			return *this;
@@ -210,6 +213,7 @@ namespace internal
 		Pointer operator->() const
 		{
 			VersionKeeper::Check();
+			MOMO_CHECK(static_cast<size_t>(mRawIndex) < mRawCount);
 			if (mRawIndex > 0)
 			{
 				MOMO_CHECK(mRawBegin != RawIterator());
@@ -248,6 +252,7 @@ namespace internal
 		RawPtr mRaw0;
 		RawIterator mRawBegin;
 		ptrdiff_t mRawIndex;
+		size_t mRawCount;
 	};
 
 	template<typename TRawIterator, typename TSettings>
@@ -286,12 +291,12 @@ namespace internal
 
 		Iterator GetBegin() const noexcept
 		{
-			return Iterator(mRaw0, mRawBegin, 0, *this);
+			return Iterator(mRaw0, mRawBegin, 0, mRawCount, *this);
 		}
 
 		Iterator GetEnd() const noexcept
 		{
-			return Iterator(mRaw0, mRawBegin, mRawCount, *this);
+			return Iterator(mRaw0, mRawBegin, mRawCount, mRawCount, *this);
 		}
 
 		MOMO_FRIENDS_SIZE_BEGIN_END_CONST(DataRawMultiHashBounds, Iterator)
